@@ -6,6 +6,7 @@ import (
 	"io"
 	"log"
 	"os"
+	"strings"
 
 	"github.com/spq/pkappa2/verifx/c01"
 	"github.com/spq/pkappa2/verifx/c02"
@@ -17,6 +18,7 @@ import (
 	"github.com/spq/pkappa2/verifx/c08"
 	"github.com/spq/pkappa2/verifx/c15"
 	"github.com/spq/pkappa2/verifx/c17"
+	"github.com/spq/pkappa2/verifx/csvc"
 	"github.com/spq/pkappa2/verifx/c18"
 	"github.com/spq/pkappa2/verifx/c19"
 )
@@ -24,12 +26,23 @@ import (
 func main() {
 	prop := flag.String("prop", "", "property id")
 	tier := flag.String("tier", "quick", "quick|thorough")
+	svcReplay := flag.String("svc-replay", "", "scenario|event;event;... : replay one service history and print every state")
 	flag.Parse()
 	log.SetOutput(io.Discard) // the code under test logs every import/merge
 	if t := os.Getenv("VERIF_TIER"); t != "" && *tier == "" {
 		*tier = t
 	}
 	var code int
+	if *svcReplay != "" {
+		sc, p, _ := strings.Cut(*svcReplay, "|")
+		var path []string
+		for _, e := range strings.Split(p, ";") {
+			if e = strings.TrimSpace(e); e != "" {
+				path = append(path, e)
+			}
+		}
+		os.Exit(csvc.Replay(*tier, sc, path))
+	}
 	switch *prop {
 	case "C04":
 		code = c04.Run(*tier)
@@ -47,6 +60,8 @@ func main() {
 		code = c02.Run(*tier)
 	case "C03":
 		code = c03.Run(*tier)
+	case "C06", "C09", "C10", "C13", "C16":
+		code = csvc.Run(*prop, *tier)
 	case "C07":
 		code = c07.Run(*tier)
 	case "C14":
